@@ -3,8 +3,8 @@ Spec: server/AcceptDispatch.tla (C03_NoLostWake at every quiescent state + liven
 import srvflow
 
 INV = ["T_C03_NoLostWake"]
-DESIGN = ["MC_core_quick.cfg", "MC_core_l1.cfg", "MC_core_w1.cfg", "MC_core_2l.cfg"]
-EDGES = ["MC_core_quick.cfg", "MC_core_l1.cfg", "MC_core_w1.cfg"]
+DESIGN = ["MC_core_quick.cfg", "MC_core_l1.cfg", "MC_core_w1.cfg", "MC_core_2l.cfg", "MC_cmd_quick.cfg"]
+EDGES = ["MC_core_quick.cfg", "MC_core_l1.cfg", "MC_core_w1.cfg", "MC_cmd_quick.cfg"]
 THOROUGH = ["MC_core_w3.cfg", "MC_core_l3.cfg", "MC_core_l4.cfg", "MC_core_w3l3.cfg"]
 NEGS = {"NEG_WakeAtLimit.cfg": ["C03_NoLostWake"], "NEG_WakeAtLimit_l2.cfg": ["C03_NoLostWake"],
         "NEG_WakeAtLimit_w2.cfg": ["C03_NoLostWake"], "NEG_WakeSkipsAcceptAll.cfg": ["C03_NoLostWake"],
@@ -25,7 +25,7 @@ def nontrivial(s, run):
 
 def run(ctx):
     srvflow.run_check(
-        ctx, design=DESIGN, edge_cfgs=EDGES, negs=NEGS, invariants=INV, corpus=["server_core.ndjson"],
+        ctx, design=DESIGN, edge_cfgs=EDGES, negs=NEGS, invariants=INV, corpus=["server_core.ndjson", "server_cmd.ndjson", "server_cmd_sat.ndjson"],
         thorough_design=THOROUGH, live=["LIVE_C03.cfg", "LIVE_C03_w2.cfg"],
         neg_live=[("NEG_LIVE_WakeAtLimit.cfg", ["temporal"])], nontrivial=nontrivial,
         signature=lambda rec, pred, s: "%s:W%d:L%d" % (pred, s["cfg"]["W"], s["cfg"]["Limit"]),
